@@ -83,21 +83,27 @@ def run(ctx):
     dump = ctx.isa()
     ctx.need(not dump["errors"], "ISA dump reported errors: %s" % dump["errors"][:2])
     for arch in TARGETS:
-        roots = grammar(dump, arch)
-        types = sorted({r[3:] for r in roots if r.startswith("REG") and len(r) > 3 and r[3] in "IUF"})
-        ctx.need(types, "no REG<type> rules for %s" % arch)
-        for t in types:
-            ops = INT_OPS if t[0] in "IU" else FLT_OPS
-            for op in ops + MEM_OPS:
-                term = op + t
-                rules = roots.get(term, [])
-                if any(g and not c for g, c, _ in rules):
-                    ctx.ob("C29.R3", "grammar:%s" % arch, "%s has an unconditional general rule in %s" % (term, arch), True, construct="cell:%s:%s" % (arch, term))
-                elif any(g for g, c, _ in rules):
-                    ctx.undecided("C29.R3", "grammar:%s" % arch, "%s is covered only by conditional rules" % term)
-                elif rules:
-                    ctx.ob("C29.R3", "grammar:%s" % arch, "%s has a general rule (all operands non-terminals) in %s, not only operand-specific ones" % (term, arch), False, construct="cell:%s:%s" % (arch, term),
-                           detail="only %s" % [r[2]["tree"] for r in rules][:3])
-                else:
-                    ctx.ob("C29.R3", "grammar:%s" % arch, "%s has a rule in %s (type %s has REG/LDR/STR rules, so values of this type reach the selector)" % (term, arch, t), False, construct="cell:%s:%s" % (arch, term),
-                           detail="no pattern with root %s" % term)
+        grammar_cells(ctx, dump, arch, "C29.R3")
+
+
+def grammar_cells(ctx, dump, arch, rid, narrow_arith=True):
+    roots = grammar(dump, arch)
+    types = sorted({r[3:] for r in roots if r.startswith("REG") and len(r) > 3 and r[3] in "IUF"})
+    ctx.need(types, "no REG<type> rules for %s" % arch)
+    for t in types:
+        ops = INT_OPS if t[0] in "IU" else FLT_OPS
+        if not narrow_arith and t[0] in "IU" and int(t[1:]) < 32:
+            ops = []   # the C front-end promotes narrow operands to int before arithmetic
+        for op in ops + MEM_OPS:
+            term = op + t
+            rules = roots.get(term, [])
+            if any(g and not c for g, c, _ in rules):
+                ctx.ob(rid, "grammar:%s" % arch, "%s has an unconditional general rule in %s" % (term, arch), True, construct="cell:%s:%s" % (arch, term))
+            elif any(g for g, c, _ in rules):
+                ctx.undecided(rid, "grammar:%s" % arch, "%s is covered only by conditional rules" % term)
+            elif rules:
+                ctx.ob(rid, "grammar:%s" % arch, "%s has a general rule (all operands non-terminals) in %s, not only operand-specific ones" % (term, arch), False, construct="cell:%s:%s" % (arch, term),
+                       detail="only %s" % [r[2]["tree"] for r in rules][:3])
+            else:
+                ctx.ob(rid, "grammar:%s" % arch, "%s has a rule in %s (type %s has REG/LDR/STR rules, so values of this type reach the selector)" % (term, arch, t), False, construct="cell:%s:%s" % (arch, term),
+                       detail="no pattern with root %s" % term)
